@@ -63,9 +63,10 @@ impl Det {
     /// the per-file entry point (parses `text` itself; panics if it does not parse)
     pub fn lines(&self, text: &str, file_no: usize) -> BTreeSet<i32> {
         match self {
-            Det::Opt(x) => o::analyze_for_optimization(text, file_no, *x),
-            Det::Vuln(x) => v::analyze_for_vulnerability(text, file_no, *x),
-            Det::Qa(x) => q::analyze_for_qa(text, file_no, *x),
+            // (`as i32`: the harness keeps building if the library's line-number type changes)
+            Det::Opt(x) => o::analyze_for_optimization(text, file_no, *x).into_iter().map(|l| l as i32).collect(),
+            Det::Vuln(x) => v::analyze_for_vulnerability(text, file_no, *x).into_iter().map(|l| l as i32).collect(),
+            Det::Qa(x) => q::analyze_for_qa(text, file_no, *x).into_iter().map(|l| l as i32).collect(),
         }
     }
     /// the detector function itself (locations)
